@@ -10,9 +10,10 @@ Tasks == {"t1", "t2", "t3"}
 St(n, t, p, d) == [name |-> n, task |-> t, pipe |-> p, deps |-> d]
 Base == [pipes |-> [p1 |-> <<St("a", "t1", "", {}), St("b", "t2", "", {"a"}), St("c", "", "p2", {"b"})>>,
                     p2 |-> <<St("d", "t1", "", {}), St("e", "t3", "", {"d"})>>,
-                    p3 |-> <<St("f", "t2", "", {}), St("g", "t3", "", {"f"})>>],
+                    p3 |-> <<St("f", "t2", "", {}), St("g", "t3", "", {"f"})>>,
+                    p4 |-> <<St("h", "t1", "", {}), St("k", "t2", "", {})>>],
          wtask |-> "t1"]
-PNames == {"p1", "p2", "p3"}
+PNames == {"p1", "p2", "p3", "p4"}
 Pos == {<<p, i>> : p \in PNames, i \in 1..3}
 ValidPos == {x \in Pos : x[2] <= Len(Base.pipes[x[1]])}
 \* mutations: <<kind, pipeline, index, extra>>
@@ -22,6 +23,8 @@ Muts == {<<"none", "p1", 1, "">>}
    \cup {<<"dep", x[1], x[2], w>> : x \in {y \in ValidPos : Base.pipes[y[1]][y[2]].deps # {}}, w \in {"unknown", "other"}}
    \cup {<<"dup", x[1], x[2], "">> : x \in {y \in ValidPos : y[2] > 1}}
    \cup {<<"watcher", "p1", 1, "">>}
+   \* a stage without a name is called after its task (or pipeline): clashes through defaulted names
+   \cup {<<"defname", "p4", 1, w>> : w \in {"ok", "both", "explicit"}}
    \cup {<<"cycle", "p2", 1, w>> : w \in {"1", "2", "3"}}
 VARIABLE mut
 Init == mut \in Muts
@@ -35,6 +38,9 @@ Apply(m) ==
        [] k = "dep" -> upd("deps", {IF m[4] = "unknown" THEN "nosuch" ELSE OtherStage(p)})
        [] k = "dup" -> upd("name", Base.pipes[p][1].name)
        [] k = "watcher" -> [Base EXCEPT !.wtask = "nosuch"]
+       [] k = "defname" -> (CASE m[4] = "ok" -> [Base EXCEPT !.pipes["p4"][1].name = ""]                       \* called t1: no clash
+                              [] m[4] = "both" -> [Base EXCEPT !.pipes["p4"] = <<St("", "t1", "", {}), St("", "t1", "", {})>>]
+                              [] OTHER -> [Base EXCEPT !.pipes["p4"] = <<St("t2", "t1", "", {}), St("", "t2", "", {})>>])
        [] k = "cycle" -> (CASE m[4] = "1" -> [Base EXCEPT !.pipes["p2"] = Append(@, St("x", "", "p2", {}))]
                             [] m[4] = "2" -> [Base EXCEPT !.pipes["p2"] = Append(@, St("x", "", "p3", {})),
                                                           !.pipes["p3"] = Append(@, St("y", "", "p2", {}))]
@@ -43,7 +49,8 @@ Apply(m) ==
        [] OTHER -> Base
 Cfg == Apply(mut)
 StagesOf(c, p) == {c.pipes[p][i] : i \in DOMAIN c.pipes[p]}
-NamesOf(c, p) == {s.name : s \in StagesOf(c, p)}
+EffName(s) == IF s.name # "" THEN s.name ELSE IF s.task # "" THEN s.task ELSE s.pipe
+NamesOf(c, p) == {EffName(s) : s \in StagesOf(c, p)}
 Includes(c, p) == {s.pipe : s \in {t \in StagesOf(c, p) : t.task = ""}}
 RECURSIVE ReachP(_, _, _)
 ReachP(c, S, k) == IF k = 0 THEN S ELSE ReachP(c, S \cup UNION {Includes(c, q) : q \in S \cap PNames}, k - 1)
@@ -58,5 +65,5 @@ WellFormed(c) ==
 Expected == WellFormed(Cfg)
 Emit == PrintT(<<"REF", ToJson([mut |-> mut, cfg |-> Cfg, wellformed |-> Expected])>>)
 \* sanity of the mutation table itself: only the unmutated configuration is well formed
-OnlyBaseWellFormed == Expected <=> mut[1] = "none"
+OnlyBaseWellFormed == Expected <=> (mut[1] = "none" \/ (mut[1] = "defname" /\ mut[4] = "ok"))
 =====================================================================
